@@ -52,6 +52,9 @@ func deepCopy(v any) any {
 func scribble(v any) {
 	switch v := v.(type) {
 	case map[string]any:
+		if v == nil { // a failed call's result
+			return
+		}
 		for k, e := range v {
 			scribble(e)
 			v[k] = c07Scribble
